@@ -288,3 +288,35 @@ def lineend_fonts(tmp, names=("charis_r_gr.ttf", "Padauk.ttf", "Scheherazadegr.t
             open(p, "wb").write(sfnt.build_sfnt(t))
         out.append(p)
     return out
+
+
+def smp_start_jobs(tmp, opts=0):
+    """charis_r_gr.ttf with the first supplementary group of its format 12 cmap moved down to begin at U+10000 (the first
+    code point beyond the BMP: the boundary between what a cached cmap takes from format 4 and from format 12)."""
+    import struct
+    from fontgen import sfnt
+    p = os.path.join(tmp, "charis_u10000.ttf")
+    if not os.path.exists(p):
+        S = sfnt.Sfnt(os.path.join(F, "charis_r_gr.ttf"))
+        t = {k: S.table(k) for k in S.order}
+        cm = bytearray(t["cmap"])
+        n = struct.unpack(">H", cm[2:4])[0]
+        done = False
+        for i in range(n):
+            pid, eid, off = struct.unpack(">HHI", cm[4 + 8 * i:12 + 8 * i])
+            if struct.unpack(">H", cm[off:off + 2])[0] != 12:
+                continue
+            ng = struct.unpack(">I", cm[off + 12:off + 16])[0]
+            for g in range(ng):
+                a = off + 16 + 12 * g
+                s0, e0, g0 = struct.unpack(">III", cm[a:a + 12])
+                if s0 > 0xFFFF:
+                    cm[a:a + 4] = struct.pack(">I", 0x10000)
+                    done = True
+                    break
+        if not done:
+            return []
+        t["cmap"] = bytes(cm)
+        open(p, "wb").write(sfnt.build_sfnt(t))
+    texts = [[0x10000], [0x41, 0x10000, 0x42], [0x10000, 0x10001, 0xFFFF, 0x10000], [0x1D510, 0x10000]]
+    return [{"font": p, "cps": cps, "dir": 0, "opts": opts, "ppm": 0, "id": "u10000:%d" % k} for k, cps in enumerate(texts)]
